@@ -106,8 +106,8 @@ def describe():
             "Domain = the property's quantifier: strictly increasing stamps inside each "
             "table, at most one measurement object per class, time_step > 0, |pitch|<=75 "
             "deg, |lat|<=82 deg, speed<=300 m/s, sigmas 1e-2..1e2.",
-            "Termination is decided as bounded liveness: <= 400*(rows+epochs+2) executed "
-            "source lines of pyins.filters (>= 3x the measured need).",
+            "Termination is decided as bounded liveness: <= 2000*(rows+epochs+2) executed "
+            "source lines of pyins.filters (>= 20x the measured need).",
             "A compute_matrices call that returns a model counts as one use of that "
             "sample (delivery history recorded by spy subclasses).",
             "The numba kernel cannot be interrupted by the step budget (bounded for-loop); "
